@@ -30,13 +30,13 @@ LEVEL = {"C06": "exploration", "C07": "fault_enumeration", "C10": "exploration",
 TIERS = {
     "quick": {
         "selftest": 24, "runs": {"C06": 1400, "C07": 520, "C10": 1400, "C17": 1200},
-        "explore_wall": 50, "sweeps": 24, "sweeps_wall": 240, "micropool_len": 3, "micropools": 1,
+        "explore_wall": 50, "sweeps": 24, "coldproc": 8, "sweeps_wall": 240, "micropool_len": 3, "micropools": 1,
         "micropool_wall": 200, "minimise_s": 45,
         "hash_runs": 500, "hash_seeds": 2,
     },
     "thorough": {
         "selftest": 192, "runs": {"C06": 40000, "C07": 14000, "C10": 40000, "C17": 36000},
-        "explore_wall": 720, "sweeps": 220, "sweeps_wall": 600, "micropool_len": 4, "micropools": 2,
+        "explore_wall": 720, "sweeps": 220, "coldproc": 64, "sweeps_wall": 600, "micropool_len": 4, "micropools": 2,
         "micropool_wall": 500, "minimise_s": 120, "hash_runs": 3000, "hash_seeds": 3,
     },
 }
@@ -359,6 +359,11 @@ def run_sweeps(c, pool):
     jobs = [{"kind": "scenario", "job_id": f"w{i}", "scenario": sweeps.sweep_scenario(s, c.tier),
              "oracles": c.oracles, "known": c.known_sigs, "timeout": 600, "sample": i < 2}
             for i, s in enumerate(seeds)]
+    # cold-process sweeps: first build / first evaluation of a process, one forked child per crash point
+    for i in range(c.T["coldproc"]):
+        jobs.insert(2 * i, {"kind": "scenario", "job_id": f"cp{i}", "oracles": c.oracles, "known": c.known_sigs,
+                            "scenario": sweeps.coldproc_scenario(mix(c.seed, "coldproc", c.tier, i), c.tier),
+                            "timeout": 900, "sample": i < 1})
     t = time.time()
     res = pool.map(jobs, deadline=time.monotonic() + c.T["sweeps_wall"])
     out = [res[j["job_id"]] for j in jobs if j["job_id"] in res]
@@ -368,7 +373,8 @@ def run_sweeps(c, pool):
     for r in agg["violations"][:2]:
         handle_violation(c, pool, r, {"phase": "crash-point sweep", "tag": f"sweep-{r.get('job_id')}"})
     print(f"sweeps: scenarios={len(out)} eval_points={agg['stats'].get('sweep.eval.points', 0)} "
-          f"build_points={agg['stats'].get('sweep.build.points', 0)} wall={time.time() - t:.1f}s "
+          f"build_points={agg['stats'].get('sweep.build.points', 0)} "
+          f"coldproc_points={agg['stats'].get('sweep.coldproc.points', 0)} wall={time.time() - t:.1f}s "
           f"violations={len(agg['violations'])}", flush=True)
     return {"agg": agg, "wall": time.time() - t, "scenarios": len(out), "results": out}
 
@@ -446,7 +452,7 @@ def write_evidence(c, ev, wall, fixed, known_lines):
             digests.add(d)
             st = r["stats"]
             nt = st.get(NONTRIVIAL_KEY[c.prop], 0) > 0 or st.get("sweep.eval.points", 0) > 0 \
-                or st.get("sweep.build.points", 0) > 0
+                or st.get("sweep.build.points", 0) > 0 or st.get("sweep.coldproc.points", 0) > 0
             if nt:
                 nontrivial.add(d)
             if "sample" in r and len(samples) < 6:
@@ -515,10 +521,16 @@ def write_evidence(c, ev, wall, fixed, known_lines):
             "eval_points_by_mode": {"line": s.get("sweep.eval.points.line", 0), "call": s.get("sweep.eval.points.call", 0)},
             "build_points_by_mode": {"line": s.get("sweep.build.points.line", 0),
                                      "call": s.get("sweep.build.points.call", 0)},
+            "cold_first_evaluation_points": s.get("sweep.eval.cold.points", 0),
+            "cold_process_sweeps": s.get("sweep.coldproc.ops", 0),
+            "cold_process_points": s.get("sweep.coldproc.points", 0),
             "rule": "every line event (or every call event) of the swept evaluate_new_data inside formulae/ (stride 1; "
                     "quick tier alternates the two exception flavours over the points, thorough injects both at every "
                     "point); stride sample of the swept design_matrices; after each abort: S invariants on every live "
-                    "object + un-faulted canary compared with the pre-fault baseline, fresh-process reference at the end",
+                    "object + un-faulted canary compared with the pre-fault baseline, fresh-process reference at the end; "
+                    "cold sweeps: every point of the FIRST evaluation on a freshly built design; cold-process sweeps: a "
+                    "stride sample of the points of the first build (+ first evaluation) of a process, one forked "
+                    "child per point",
         }
     if ev.get("hash"):
         coverage["hash_seed_phase"] = ev["hash"]
